@@ -18,6 +18,8 @@ type Ctx struct {
 	R    *core.Report
 	Tier string
 	Seed int64
+	// premises already run in this check (they are shared by several clauses)
+	statelessDone, statelessCompDone bool
 }
 
 func (c *Ctx) Bounds() engine.Bounds {
